@@ -39,7 +39,7 @@ def clone(node):
             setattr(new, a, getattr(node, a))
     return new
 
-PURE_CALLS = {"len", "abs", "isinstance", "min", "max", "int", "float", "bool", "str", "tuple", "frozenset", "id", "type"}
+PURE_CALLS = {"len", "abs", "isinstance", "min", "max", "int", "float", "bool", "str"}
 JUMPS = (ast.Return, ast.Raise, ast.Continue, ast.Break)
 
 
@@ -514,8 +514,8 @@ def _reads(e):
 def _pure(e):
     for n in ast.walk(e):
         if isinstance(n, (ast.Yield, ast.YieldFrom, ast.Await, ast.NamedExpr, ast.Lambda, ast.ListComp, ast.SetComp,
-                          ast.DictComp, ast.GeneratorExp)):
-            return False
+                          ast.DictComp, ast.GeneratorExp, ast.List, ast.Dict, ast.Set, ast.JoinedStr, ast.Starred)):
+            return False        # a display builds a new (mutable) object at every evaluation: identity matters
         if isinstance(n, ast.Call) and not (isinstance(n.func, ast.Name) and n.func.id in PURE_CALLS):
             return False
     return True
